@@ -70,6 +70,13 @@ OBS_LAYOUT = '3col-nonuniform'
 
 
 def _values(name, n, perm_index, dup=None):
+    if n > 5:
+        # many-mode cases: the lattice stretched to n values; order letters 0 (as is), 1 (reversed), 2 (rotated)
+        base = [float(v) for v in np.linspace(LATTICE[name][0], LATTICE[name][-1], n)]
+        jit = fx.rng('c09', name, n).uniform(-0.004, 0.004, size=n)
+        vals = [b * (1.0 + j) for b, j in zip(base, jit)]
+        perm = [list(range(n)), list(range(n))[::-1], list(range(n // 3, n)) + list(range(n // 3))][perm_index]
+        return [vals[i] for i in perm]
     base = LATTICE[name][:n]
     jit = fx.rng('c09', name).uniform(-0.004, 0.004, size=5)[:n]
     vals = [b * (1.0 + j) for b, j in zip(base, jit)]
@@ -83,6 +90,10 @@ def _values(name, n, perm_index, dup=None):
 
 def _split(case, n):
     k = case.get('split')
+    if case.get('nmodes'):
+        # many modes / clusters: the first one holds the samples left over, every other one a single sample
+        first = n - case['nmodes'] + 1
+        return [list(range(0, first))] + [[i] for i in range(first, n)]
     if case['sampler'] in ('mn-multi2', 'pc-cluster2'):
         return [list(range(0, k)), list(range(k, n))]
     return [list(range(n))]
@@ -134,7 +145,7 @@ def fit_case(case):
     path = fx.fresh_dir('c09_' + sampler)
     opt = dr.make_optimizer(sampler, obs, p.model, path,
                             multimodal=(sampler_letter != 'mn-single'),
-                            cluster=(sampler_letter != 'pc-nocluster'))
+                            cluster=(sampler_letter != 'pc-nocluster'), prefix=case.get('prefix'))
     pbn = dr.configure(opt, p.model, fitted, priors)
     # derived selection (direct tuple edit: Optimizer.disable_derived is C07's subject)
     want_derived = DERIVED[case['derived']]
@@ -159,6 +170,21 @@ def fit_case(case):
                       'sigma': [0.123 * (j + 1) for j in range(d)],
                       'maximum': s[imin].tolist(),
                       'maximum a posterior': s[imax].tolist()})
+    if case.get('prefix') and sampler == 'multinest':
+        # an earlier run under the default file prefix left its files in the same output directory: other samples
+        # (shifted), other weights (reversed) - nothing of it belongs to the run under the new prefix
+        stale_modes = [(sm * 1.003, wm[::-1].copy()) for sm, wm in modes]
+        stale_stats = [dict(st_, mean=[v * 1.003 for v in st_['mean']],
+                            **{'maximum a posterior': [v * 1.003 for v in st_['maximum a posterior']]}) for st_ in stats]
+        p0 = dr.build_model('iso')
+        opt0 = dr.make_optimizer(sampler, obs, p0.model, path, multimodal=(sampler_letter != 'mn-single'))
+        dr.configure(opt0, p0.model, fitted, priors)
+        for dn in list(p0.model.derivedParameters):
+            t = p0.model.derivedParameters[dn]
+            p0.model.derivedParameters[dn] = (t[0], t[1], t[2], dn in want_derived)
+        opt0.compile_params()
+        with _silent(), ds.active(ds.Plan(points=[[0.5] * d], modes=stale_modes, stats=stale_stats)):
+            opt0.fit()
     plan = ds.Plan(points=[[0.5] * d], modes=modes, stats=stats)
     with _silent(), ds.active(plan):
         sol = opt.fit()
@@ -175,7 +201,7 @@ def fit_case(case):
         return vals
 
     nsol = len(parts)
-    keys = sorted(k for k in sol if k.startswith('solution'))
+    keys = sorted((k for k in sol if k.startswith('solution')), key=lambda k_: (len(k_), k_))
     r.check(keys == ['solution%d' % k for k in range(nsol)], 'solutions', 'solutions/count',
             got=keys, want=nsol)
     tag = sampler_letter
@@ -239,6 +265,27 @@ def fit_case(case):
         r.eq(got.ravel(), want, 'spectrum-at-map', 'spectrum-at-map/%s' % tag, map=rep_map)
         gotn = np.asarray(S['Spectra']['native_spectrum'], dtype=float)
         r.eq(gotn.ravel(), spec, 'native-spectrum-at-map', 'native-spectrum-at-map/%s' % tag)
+        # the per-source and per-component spectra stored next to it describe the same (MAP) model
+        stored_c = S['Spectra'].get('Contributions')
+        if r.check(isinstance(stored_c, dict) and len(stored_c) > 0, 'contributions-stored',
+                   'contributions/missing/%s' % tag, got=type(stored_c).__name__):
+            _, per_source = ref.model.model_contrib()
+            _, per_comp = ref.model.model_full_contrib()
+            r.check(sorted(stored_c) == sorted(per_source), 'contributions-stored', 'contributions/names/%s' % tag,
+                    got=sorted(stored_c), want=sorted(per_source))
+            for cname, (cflux, _, _) in per_source.items():
+                e_c = stored_c.get(cname)
+                if not isinstance(e_c, dict) or 'native_spectrum' not in e_c:
+                    continue
+                r.eq(np.asarray(e_c['native_spectrum'], dtype=float).ravel(), np.asarray(cflux, dtype=float),
+                     'contributions-at-map', 'contributions/source-not-at-map/%s' % tag, source=cname, map=rep_map,
+                     median=rep_med)
+                for comp, cf, _, _ in per_comp[cname]:
+                    e_k = e_c.get(comp)
+                    if isinstance(e_k, dict) and 'native_spectrum' in e_k:
+                        r.eq(np.asarray(e_k['native_spectrum'], dtype=float).ravel(), np.asarray(cf, dtype=float),
+                             'contributions-at-map', 'contributions/component-not-at-map/%s' % tag, source=cname,
+                             component=comp)
         # profiles at the median
         ref_at(rep_med)
         ref.model.model()
@@ -305,9 +352,14 @@ def _quantiles(r, e, x, w, tag, name, rtol=1e-9):
 
 
 # ----------------------------------------------------------------------------------------------
-def _case(sampler, n, d, weights, perm=None, derived='mu', split=None, wscale='norm', dup=None, zeromap=False):
+def _case(sampler, n, d, weights, perm=None, derived='mu', split=None, wscale='norm', dup=None, zeromap=False,
+          nmodes=None, prefix=None):
     c = {'sampler': sampler, 'n': n, 'd': d, 'weights': list(weights),
          'perm': list(perm) if perm is not None else [0] * d, 'derived': derived}
+    if nmodes:
+        c['nmodes'] = nmodes
+    if prefix:
+        c['prefix'] = prefix
     if dup is not None:
         c['dup'] = list(dup)
     if zeromap:
@@ -329,7 +381,7 @@ def explore(ctx):
     seen = set()
 
     def add(c):
-        if c['n'] < 2 and c['sampler'] in ('mn-multi2', 'pc-cluster2'):
+        if c['n'] < 2 and c['sampler'] in ('mn-multi2', 'pc-cluster2') and not c.get('nmodes'):
             return
         if not valid_case(c):
             return
@@ -403,5 +455,20 @@ def explore(ctx):
         for sl in SAMPLER_LETTERS:
             for w in w5:
                 add(_case(sl, 5, 2, w, perm=[0, 0], split=2))
+    # many modes / clusters (solution numbers with two digits): 11, 12 and 13 of them, three value orders, weights that
+    # single out another mode each time
+    for sl in ('mn-multi2', 'pc-cluster2'):
+        for nm in ((11, 12, 13) if quick else (10, 11, 12, 13, 21)):
+            n_ = nm + 1
+            for pi in (0, 1, 2):
+                for hv in ((0, n_ - 1) if quick else (0, n_ // 2, n_ - 1)):
+                    w_ = [1 + (i * 5) % 3 for i in range(n_)]
+                    w_[hv] = 7
+                    add(_case(sl, n_, 2, w_, perm=[pi, (pi + 1) % 3], nmodes=nm))
+    # a non-default file prefix next to the files of an earlier default-prefix run in the same directory
+    for sl in ('mn-multi1', 'mn-multi2', 'mn-single'):
+        for w in [(1, 2, 3), (3, 0, 1), (2, 3, 2)]:
+            for pa in (0, 3):
+                add(_case(sl, 3, 2, w, perm=[pa, 5 - pa], split=1, prefix='run2-'))
     ctx.bounds.update(n_max=5 if not quick else 3, weights='{0,1,2,3}^n minus 0', cases=len(cases))
     ctx.run_cases('fit_case', cases, chunk=8)
